@@ -410,6 +410,9 @@ F_EXP = z3.Function("exp", z3.RealSort(), z3.RealSort())
 F_LOG = z3.Function("log", z3.RealSort(), z3.RealSort())
 F_POW = z3.Function("pow", z3.RealSort(), z3.RealSort(), z3.RealSort())
 F_SIN = z3.Function("sine", z3.RealSort(), z3.RealSort())
+# abstract result of the layer walk of root_development (_depth_after_restrictive_horizons) for the profile of the call: a function of the
+# potential depth and the minimum depth; its assumed properties (range, monotone) are instantiated by the solver front end and bounded-checked
+F_RDEPTH = z3.Function("rdepth", z3.RealSort(), z3.RealSort(), z3.RealSort())
 PI = z3.Real("pi!const")       # constrained to 3.14159 < pi < 3.1416 by the solver front end
 
 
